@@ -2,7 +2,7 @@
 """Imports confirmed seeded changes from /tmp/seeds into /verif/seeded/<name>/ and (re)computes which checks catch them.
 usage: import_seeds.py [--detect-only]"""
 import json, os, re, shutil, subprocess, sys, glob
-ROOT='/verif'; SEEDS='/tmp/seeds'; WT='/tmp/wt/scratch'
+ROOT='/verif'; SEEDS='/tmp/seeds'; WT='/tmp/wt/seedscratch'
 props=[json.loads(l)['id'] for l in open(f'{ROOT}/properties.jsonl')]
 claimed=[c['property_id'] for c in json.load(open(f'{ROOT}/MANIFEST.json'))['checks']]
 def sh(cmd, **kw): return subprocess.run(cmd, shell=True, capture_output=True, text=True, **kw)
